@@ -186,212 +186,113 @@ func (v *Version) Compare(other *Version) int {
 	return 0
 }
 
-// compareALMPVersionString compares two ALMP version strings using vercmp rules
-// This implements the Arch Linux vercmp algorithm based on the precedence:
+// compareALMPVersionString compares two ALMP version strings using vercmp rules.
+// This is the rpmvercmp algorithm as implemented by pacman (libalpm version.c),
+// which gives the documented precedence:
 // 1.0a < 1.0b < 1.0beta < 1.0p < 1.0pre < 1.0rc < 1.0 < 1.0.a < 1.0.1
 func compareALMPVersionString(a, b string) int {
-	// Handle the specific documented precedence cases first
 	if a == b {
 		return 0
 	}
 
-	// Check if this is a direct suffix comparison (no dots separating)
-	if isDirectSuffixComparison(a, b) {
-		return compareDirectSuffixes(a, b)
-	}
+	one, two := 0, 0   // start of the current segment
+	ptr1, ptr2 := 0, 0 // end of the previous segment
 
-	// Otherwise use standard segment-by-segment comparison
-	return compareSegmentBySegment(a, b)
-}
-
-// isDirectSuffixComparison checks if we're comparing like "1.0" vs "1.0rc"
-func isDirectSuffixComparison(a, b string) bool {
-	// Simple heuristic: if one is a prefix of the other without separators
-	if len(a) < len(b) && b[:len(a)] == a {
-		// Check if remainder is alpha (no separators)
-		remainder := b[len(a):]
-		return len(remainder) > 0 && unicode.IsLetter(rune(remainder[0])) &&
-			!strings.ContainsAny(remainder[:1], ".+-_")
-	}
-	if len(b) < len(a) && a[:len(b)] == b {
-		// Check if remainder is alpha (no separators)
-		remainder := a[len(b):]
-		return len(remainder) > 0 && unicode.IsLetter(rune(remainder[0])) &&
-			!strings.ContainsAny(remainder[:1], ".+-_")
-	}
-	return false
-}
-
-// compareDirectSuffixes handles cases like "1.0" vs "1.0rc"
-func compareDirectSuffixes(a, b string) int {
-	if len(a) < len(b) && b[:len(a)] == a {
-		// a is prefix of b, b has direct suffix -> a wins (1.0 > 1.0rc)
-		return 1
-	}
-	if len(b) < len(a) && a[:len(b)] == b {
-		// b is prefix of a, a has direct suffix -> b wins
-		return -1
-	}
-	// Both have suffixes, compare lexicographically
-	return strings.Compare(a, b)
-}
-
-// compareSegmentBySegment does standard version segment comparison
-// This implements a more accurate vercmp-style algorithm
-func compareSegmentBySegment(a, b string) int {
-	// Convert to segments first, handling delimiters properly
-	aSegments := splitToSegments(a)
-	bSegments := splitToSegments(b)
-
-	// Compare segment by segment
-	maxLen := len(aSegments)
-	if len(bSegments) > maxLen {
-		maxLen = len(bSegments)
-	}
-
-	for i := 0; i < maxLen; i++ {
-		var aSeg, bSeg string
-		var aMissing, bMissing bool
-
-		if i < len(aSegments) {
-			aSeg = aSegments[i]
-		} else {
-			aMissing = true
+	for one < len(a) && two < len(b) {
+		// Skip separators (anything that is not alphanumeric)
+		for one < len(a) && !isAlnum(a[one]) {
+			one++
 		}
-		if i < len(bSegments) {
-			bSeg = bSegments[i]
-		} else {
-			bMissing = true
+		for two < len(b) && !isAlnum(b[two]) {
+			two++
 		}
 
-		// Handle missing segments differently from empty segments
-		if aMissing && bMissing {
-			continue // both missing, equal
-		}
-		if aMissing {
-			return -1 // missing < present (even if empty)
-		}
-		if bMissing {
-			return 1 // present (even if empty) > missing
+		// If we ran to the end of either, we are finished with the loop
+		if one >= len(a) || two >= len(b) {
+			break
 		}
 
-		// Compare segments (both present)
-		cmp := compareSegments(aSeg, bSeg)
-		if cmp != 0 {
-			return cmp
-		}
-	}
-
-	return 0
-}
-
-// splitToSegments splits a version string into segments following vercmp rules
-// vercmp alternates between alpha and numeric segments
-func splitToSegments(version string) []string {
-	var segments []string
-	var current strings.Builder
-	var lastWasAlpha *bool // nil = no character yet, true = alpha, false = numeric
-
-	for _, r := range version {
-		if unicode.IsLetter(r) || unicode.IsDigit(r) {
-			isAlpha := unicode.IsLetter(r)
-
-			// Check if we need to split due to alpha/numeric transition
-			if lastWasAlpha != nil && *lastWasAlpha != isAlpha {
-				// Transition between alpha and numeric - split here
-				segments = append(segments, current.String())
-				current.Reset()
+		// If the separator lengths were different, we are also finished
+		if (one - ptr1) != (two - ptr2) {
+			if (one - ptr1) < (two - ptr2) {
+				return -1
 			}
-
-			current.WriteRune(r)
-			lastWasAlpha = &isAlpha
-		} else {
-			// Delimiter found - end current segment
-			if current.Len() > 0 {
-				segments = append(segments, current.String())
-				current.Reset()
-				lastWasAlpha = nil
-			}
-			// Add empty segment for delimiter (preserving empty segments)
-			segments = append(segments, "")
-		}
-	}
-
-	// Add final segment if any content remains
-	if current.Len() > 0 {
-		segments = append(segments, current.String())
-	}
-
-	return segments
-}
-
-// compareSegments compares individual segments using vercmp rules
-func compareSegments(a, b string) int {
-	// Handle empty segments according to vercmp "final showdown" rules
-	if a == "" && b == "" {
-		return 0
-	}
-	if a == "" {
-		// Empty segment vs non-empty segment
-		// In vercmp, empty segments can be greater than non-empty in certain contexts
-		return 1 // empty > non-empty
-	}
-	if b == "" {
-		// Non-empty vs empty segment
-		return -1 // non-empty < empty
-	}
-
-	// Both non-empty segments
-	aIsNum := len(a) > 0 && unicode.IsDigit(rune(a[0]))
-	bIsNum := len(b) > 0 && unicode.IsDigit(rune(b[0]))
-
-	if aIsNum && bIsNum {
-		return compareALMPDigits(a, b)
-	} else if aIsNum {
-		return 1 // numeric > alpha
-	} else if bIsNum {
-		return -1 // alpha < numeric
-	} else {
-		return strings.Compare(a, b) // both alpha
-	}
-}
-
-// compareALMPDigits compares digit strings numerically
-func compareALMPDigits(a, b string) int {
-	// Empty string is treated as 0
-	if a == "" && b == "" {
-		return 0
-	}
-	if a == "" {
-		return -1
-	}
-	if b == "" {
-		return 1
-	}
-
-	// Convert to integers for comparison
-	aNum, aErr := strconv.ParseUint(a, 10, 64)
-	bNum, bErr := strconv.ParseUint(b, 10, 64)
-
-	if aErr == nil && bErr == nil {
-		if aNum < bNum {
-			return -1
-		}
-		if aNum > bNum {
 			return 1
 		}
+
+		ptr1, ptr2 = one, two
+
+		// Grab the first completely alpha or completely numeric segment;
+		// the type of the segment in a decides for both
+		isNum := isDigit(a[ptr1])
+		if isNum {
+			for ptr1 < len(a) && isDigit(a[ptr1]) {
+				ptr1++
+			}
+			for ptr2 < len(b) && isDigit(b[ptr2]) {
+				ptr2++
+			}
+		} else {
+			for ptr1 < len(a) && isAlpha(a[ptr1]) {
+				ptr1++
+			}
+			for ptr2 < len(b) && isAlpha(b[ptr2]) {
+				ptr2++
+			}
+		}
+
+		seg1, seg2 := a[one:ptr1], b[two:ptr2]
+
+		// The segments are of different types: numeric segments are newer
+		// than alpha segments
+		if seg2 == "" {
+			if isNum {
+				return 1
+			}
+			return -1
+		}
+
+		if isNum {
+			// Numbers of any length: drop leading zeros, the longer one wins
+			seg1 = strings.TrimLeft(seg1, "0")
+			seg2 = strings.TrimLeft(seg2, "0")
+			if len(seg1) > len(seg2) {
+				return 1
+			}
+			if len(seg2) > len(seg1) {
+				return -1
+			}
+		}
+
+		// Same length numbers or alpha segments compare like strings
+		if cmp := strings.Compare(seg1, seg2); cmp != 0 {
+			return cmp
+		}
+
+		one, two = ptr1, ptr2
+	}
+
+	// Everything compared so far is equal and both are used up
+	if one >= len(a) && two >= len(b) {
 		return 0
 	}
 
-	// Fallback for very large numbers that don't fit in uint64
-	// Compare by length first (longer number is larger)
-	if len(a) < len(b) {
+	// The final showdown: a remaining alpha string never beats an empty
+	// string (1.0rc < 1.0), anything else remaining does (1.0 < 1.0.1)
+	if (one >= len(a) && !isAlpha(b[two])) || (one < len(a) && isAlpha(a[one])) {
 		return -1
 	}
-	if len(a) > len(b) {
-		return 1
-	}
+	return 1
+}
 
-	// If lengths are equal, string comparison works for digits
-	return strings.Compare(a, b)
+func isDigit(c byte) bool {
+	return c >= '0' && c <= '9'
+}
+
+func isAlpha(c byte) bool {
+	return (c >= 'a' && c <= 'z') || (c >= 'A' && c <= 'Z')
+}
+
+func isAlnum(c byte) bool {
+	return isDigit(c) || isAlpha(c)
 }
